@@ -50,6 +50,8 @@ MANIFEST = {
     "note": "trusts symeval + refevm; z3 only proposes inputs; a z3 'unsat/unknown' when challenging a pruning verdict only means no witness was found",
 }
 
+CASE_BOUND_S = 300.0
+
 CONFIGS = [
     {"solver_timeout_branching": 0.001, "loop": 2},
     {"solver_timeout_branching": 2, "loop": 2},
@@ -275,7 +277,26 @@ def run_shard(spec, seed, tier):
     acc = Acc()
 
     def body(case):
-        for b, d in run_case(case, acc):
+        # z3 does not always honour its time limit (a few preprocessing steps cannot be interrupted), and
+        # a branching query of halmos can then block for hours: every case runs in a forked child that is
+        # killed after CASE_BOUND_S; such a case is counted as excluded, never judged
+        from vfw.util import Hang, forked
+
+        def child():
+            sub = Acc()
+            fl = run_case(case, sub)
+            return fl, sub.dump()
+
+        try:
+            fl, d_ = forked(child, CASE_BOUND_S)
+        except Hang:
+            acc.exclude(f"case-exceeded-{int(CASE_BOUND_S)}s (z3 call does not return)")
+            return
+        except RuntimeError as e:
+            acc.exclude("case-child-died: " + str(e)[:60])
+            return
+        acc.absorb(d_)
+        for b, d in fl:
             acc.fail(b, case, d)
 
     run_cases(case_st(spec["kind"]), body, spec["n"], seed)
